@@ -307,9 +307,49 @@ Definition with_error_page (s : list op) (ret : Z) (errbody : bytes) : list op :
   else s.
 
 (* staticfiles.serveFile: sibling choice and the headers it sets before http.ServeContent *)
+(* strings.TrimSpace: white space is unicode.IsSpace, read from the UTF-8 encoding: the ASCII
+   ones (HT LF VT FF CR SP) and U+0085, U+00A0 (C2 85 / C2 A0), U+1680 (E1 9A 80),
+   U+2000..U+200A, U+2028, U+2029, U+202F (E2 80 80..8A / A8 / A9 / AF), U+205F (E2 81 9F),
+   U+3000 (E3 80 80); any other byte sequence (invalid encodings included) stops the trimming *)
 Definition is_space (c : N) : bool := (c =? 32) || ((9 <=? c) && (c <=? 13)).
-Fixpoint ltrim_sp (s : bytes) : bytes := match s with c :: r => if is_space c then ltrim_sp r else s | [] => [] end.
-Definition trim_space (s : bytes) : bytes := rev (ltrim_sp (rev (ltrim_sp s))).
+Definition sp2 (c1 c2 : N) : bool := (c1 =? 194) && ((c2 =? 133) || (c2 =? 160)).
+Definition sp3 (c1 c2 c3 : N) : bool :=
+  ((c1 =? 225) && (c2 =? 154) && (c3 =? 128)) ||
+  ((c1 =? 226) && (c2 =? 128) && (((128 <=? c3) && (c3 <=? 138)) || (c3 =? 168) || (c3 =? 169) || (c3 =? 175))) ||
+  ((c1 =? 226) && (c2 =? 129) && (c3 =? 159)) ||
+  ((c1 =? 227) && (c2 =? 128) && (c3 =? 128)).
+Fixpoint ltrim_sp (s : bytes) : bytes :=
+  match s with
+  | [] => []
+  | c :: r =>
+      if is_space c then ltrim_sp r
+      else match r with
+           | c2 :: r2 =>
+               if sp2 c c2 then ltrim_sp r2
+               else match r2 with
+                    | c3 :: r3 => if sp3 c c2 c3 then ltrim_sp r3 else s
+                    | [] => s
+                    end
+           | [] => s
+           end
+  end.
+(* the same from the right end, on the reversed string (last byte first) *)
+Fixpoint ltrim_sp_rev (s : bytes) : bytes :=
+  match s with
+  | [] => []
+  | c :: r =>
+      if is_space c then ltrim_sp_rev r
+      else match r with
+           | c2 :: r2 =>
+               if sp2 c2 c then ltrim_sp_rev r2
+               else match r2 with
+                    | c3 :: r3 => if sp3 c3 c2 c then ltrim_sp_rev r3 else s
+                    | [] => s
+                    end
+           | [] => s
+           end
+  end.
+Definition trim_space (s : bytes) : bytes := rev (ltrim_sp_rev (rev (ltrim_sp s))).
 Definition accepted (ae name : bytes) : bool := existsb (fun e => beq (trim_space e) name) (split 44 ae).
 Definition select_sibling (prio : list (bytes * bytes)) (ae : bytes) (avail : bytes -> bool) : option (bytes * bytes) :=
   find (fun ne => accepted ae (fst ne) && avail (snd ne)) prio.
@@ -426,6 +466,97 @@ Definition spec_static (head : bool) (ae : bytes) (data : option bytes) (G : obs
               (lbeq (o_vcod G) [] && beq (o_view G) d && forallb (offers_coding ae) (ce_tokens (o_ce G)))
   end.
 
+(* ---------- the pooled gzip writers (gzip/setup.go: writerPool, getWriter, putWriter) ---------- *)
+(* Requests run concurrently; what they share is the sync.Pool of *gzip.Writer per level.  A
+   request fetches a writer at most once (gzipResponseWriter.Writer() is lazy: getWriter, then
+   Reset onto the request's own ResponseWriter), writes into it, and Gzip.ServeHTTP hands it back
+   on its way out (the deferred putWriter = Close + Put; the status >= 400 path and panics
+   included).  An execution is ANY interleaving of these events for any number of requests;
+   which object a Get returns is part of the event (k-th element of the pool, or a new writer
+   when k is out of range: sync.Pool may return any element or call New), and the runtime may
+   drop pooled objects at any time.
+   [nput err] = how often the writer is handed back on the way out ([err]: the handler returned
+   a status >= 400).  In the code this is 1 on every path; the theorems are about that instance,
+   the examples show what a second put on the error path would do. *)
+Inductive pev :=
+| PGet (r k : nat)             (* request r: getWriter + Reset *)
+| PWrite (r : nat) (b : bytes) (* request r: Write(b) on its gzip writer *)
+| PFinish (r : nat) (err : bool) (* request r: Gzip.ServeHTTP returns *)
+| PDrop (k : nat).             (* the k-th pooled writer is garbage collected *)
+
+Record pst := mkP {
+  p_pool : list nat;               (* writers in the pool: a multiset of object identities *)
+  p_held : nat -> option nat;      (* request -> the writer it holds *)
+  p_done : nat -> bool;            (* request finished *)
+  p_got : nat -> bool;             (* request has fetched a writer at some time *)
+  p_dst : nat -> nat;              (* writer -> the request whose response it was last Reset onto *)
+  p_buf : nat -> list bytes;       (* writer -> what was written since the Reset, newest first *)
+  p_closed : nat -> bool;          (* writer closed since the Reset *)
+  p_out : nat -> list (list bytes);(* request -> gzip streams that reached its response (each: the writes it holds) *)
+  p_log : nat -> list bytes;       (* request -> what its handler wrote into its writer, newest first (ghost) *)
+  p_next : nat }.                  (* next fresh object identity *)
+
+Definition upd {A} (f : nat -> A) (k : nat) (v : A) : nat -> A := fun x => if Nat.eqb x k then v else f x.
+Definition remove_nth {A} (k : nat) (l : list A) : list A := firstn k l ++ skipn (S k) l.
+
+Definition p0 : pst := mkP [] (fun _ => None) (fun _ => false) (fun _ => false) (fun _ => O) (fun _ => [])
+                           (fun _ => false) (fun _ => []) (fun _ => []) O.
+
+(* gzip.Writer.Close: the stream goes to the writer the object is bound to; a second Close is a no-op *)
+Definition close_w (w : nat) (s : pst) : pst :=
+  if p_closed s w then s
+  else mkP (p_pool s) (p_held s) (p_done s) (p_got s) (p_dst s) (p_buf s) (upd (p_closed s) w true)
+           (upd (p_out s) (p_dst s w) (p_out s (p_dst s w) ++ [rev (p_buf s w)])) (p_log s) (p_next s).
+(* putWriter: Close, then sync.Pool.Put *)
+Definition put_w (w : nat) (s : pst) : pst :=
+  let s1 := close_w w s in
+  mkP (w :: p_pool s1) (p_held s1) (p_done s1) (p_got s1) (p_dst s1) (p_buf s1) (p_closed s1) (p_out s1) (p_log s1) (p_next s1).
+Fixpoint put_n (n : nat) (w : nat) (s : pst) : pst :=
+  match n with O => s | S n' => put_n n' w (put_w w s) end.
+
+Section Pool.
+Variable nput : bool -> nat.
+
+Definition pool_step (s : pst) (e : pev) : pst :=
+  match e with
+  | PGet r k =>
+      if p_done s r then s else
+      match p_held s r with
+      | Some _ => s
+      | None =>
+          let '(w, pool', next') :=
+            match nth_error (p_pool s) k with
+            | Some w => (w, remove_nth k (p_pool s), p_next s)
+            | None => (p_next s, p_pool s, S (p_next s))
+            end in
+          mkP pool' (upd (p_held s) r (Some w)) (p_done s) (upd (p_got s) r true) (upd (p_dst s) w r)
+              (upd (p_buf s) w []) (upd (p_closed s) w false) (p_out s) (p_log s) next'
+      end
+  | PWrite r b =>
+      match p_held s r with
+      | Some w =>
+          if p_closed s w then s   (* Write on a closed gzip.Writer fails *)
+          else mkP (p_pool s) (p_held s) (p_done s) (p_got s) (p_dst s) (upd (p_buf s) w (b :: p_buf s w))
+                   (p_closed s) (p_out s) (upd (p_log s) r (b :: p_log s r)) (p_next s)
+      | None => s
+      end
+  | PFinish r err =>
+      if p_done s r then s else
+      let s1 := match p_held s r with Some w => put_n (nput err) w s | None => s end in
+      mkP (p_pool s1) (upd (p_held s1) r None) (upd (p_done s1) r true) (p_got s1) (p_dst s1) (p_buf s1)
+          (p_closed s1) (p_out s1) (p_log s1) (p_next s1)
+  | PDrop k =>
+      mkP (remove_nth k (p_pool s)) (p_held s) (p_done s) (p_got s) (p_dst s) (p_buf s) (p_closed s)
+          (p_out s) (p_log s) (p_next s)
+  end.
+Definition prun (t : list pev) : pst := fold_left pool_step t p0.
+End Pool.
+
+(* the code: one put on every path *)
+Definition nput_code (err : bool) : nat := 1%nat.
+(* a second put on the status >= 400 path *)
+Definition nput_twice_on_error (err : bool) : nat := if err then 2%nat else 1%nat.
+
 (* ---------- cases ---------- *)
 Inductive case :=
 | CScript (cs : bool) (cfgs : list gcfg) (head : bool) (path ae : bytes)
@@ -433,6 +564,11 @@ Inductive case :=
 | CStatic (cs : bool) (cfgs : list gcfg) (head : bool) (path ae : bytes)
           (data : option bytes) (sibs : list (bytes * bytes)) (errbody : bytes) (G P : obs)
 | CBig (same_status same_view ce_exact cl_fine : bool)   (* large bodies: judged by the harness *)
+(* a history of [npre] requests (error statuses after a partial compressed body, panics, aborted
+   downloads, ...) followed by concurrent requests through the same pooled writers; per response
+   of the burst: status 200 without transport error, the client view is the request's own body,
+   Content-Encoding exact, Content-Length fine (each decoded by the harness) *)
+| CBurst (npre : N) (resps : list (bool * bool * bool * bool))
 | CExt (p e : bytes)                                     (* path.Ext differential *)
 | CSkip.
 
@@ -452,8 +588,9 @@ Definition judge (c : case) : N :=
       let mg := gzip_serve gen_c18_default_exts cs cfgs path ae s in
       let mp := run_plain s in
       verdict (agree_obs head mg G && agree_obs head mp P && agree_etag mg mp G P)
-              (spec_common head ae G P && spec_static head ae data G)
+              (spec_common head ae G P && spec_static head ae data G && spec_static head ae data P)
   | CBig a b c d => verdict true (a && b && c && d)
+  | CBurst _ resps => verdict true (forallb (fun r => match r with (a, b, c, d) => a && b && c && d end) resps)
   | CExt p e => verdict (beq (path_ext p) e) true
   | CSkip => 0
   end.
